@@ -7,8 +7,8 @@ handle's own directory by exactly one rotation; every later write of the run goe
 temporary handle `mdb`, whose directory is the merge directory (`mergeDirName db.dir ≠ db.dir`).
 Hence `Step s (merge s order).1` (`Step_merge`), with no hypothesis at all.
 
-`HOp` / `hrun` is the trace type of the stability theorem: plain operations, batch operations and
-`Merge` runs in any interleaving (`Step_hrun`).
+`HOp` / `hrun` is the trace type of the stability theorem: plain operations, batch operations,
+`Merge` runs and `Backup`s (`Step_backup`) in any interleaving (`Step_hrun`).
 -/
 namespace XixiKV.Engine.IterP
 open XixiKV.Frame XixiKV.Record XixiKV.Index XixiKV.Engine XixiKV.Engine.BatchP XixiKV.Engine.MergeP
@@ -136,16 +136,94 @@ theorem Step_merge (s : St) (order : List Nat) : Step s (merge s order).1 := by
   refine ⟨_, h1, (Adv_rotate s db).trans ?_⟩
   exact Adv.same_dir rfl h2 rfl
 
-/-! ## histories: plain operations, batch operations and `Merge` runs, interleaved -/
+/-! ## `Backup` -/
+
+/-- copying files of `d` (ascending ids) over a list that already agrees with `d` byte for byte
+    keeps that agreement — the case `Backup(dir)` with `dir` = the data directory itself -/
+theorem backup_self_fold (d : List (Nat × FileSt)) (hd : AscF d) (l : List (Nat × FileSt)) :
+    ∀ (acc : List (Nat × FileSt)), (∀ x ∈ l, x ∈ d) → AscF acc →
+      (∀ id, (getFile acc id).map (·.bytes) = (getFile d id).map (·.bytes)) →
+      AscF (l.foldl (fun acc (x : Nat × FileSt) => setFile acc x.1 { x.2 with synced := x.2.bytes.size }) acc) ∧
+      ∀ id, (getFile (l.foldl (fun acc (x : Nat × FileSt) =>
+          setFile acc x.1 { x.2 with synced := x.2.bytes.size }) acc) id).map (·.bytes)
+        = (getFile d id).map (·.bytes) := by
+  induction l with
+  | nil => intro acc _ ha hb; exact ⟨ha, hb⟩
+  | cons x rest ih =>
+    intro acc hm ha hb
+    simp only [List.foldl_cons]
+    refine ih _ (fun y hy => hm y (by simp [hy])) (AscF_setFile ha _ _) ?_
+    intro id
+    rw [getFile_setFile]
+    by_cases e : id = x.1
+    · rw [if_pos e, e, getFile_of_mem hd (hm x (by simp))]
+      rfl
+    · rw [if_neg e]; exact hb id
+
+/-- the state after `Backup` (the body of `Engine.backup` for the open handle `db`) -/
+def backupSt (s : St) (db : DB) (dest : String) : St :=
+  let d := dirOf s db
+  let old := (s.world.get dest).getD DirSt.empty
+  let data := d.data.foldl (fun acc (x : Nat × FileSt) => setFile acc x.1 { x.2 with synced := x.2.bytes.size }) old.data
+  let hint := match d.hint with
+    | some h => some h
+    | none => old.hint
+  { s with world := s.world.set dest { old with data := data, hint := hint } }
+
+theorem backup_eq_st {s : St} {db : DB} (hs : s.db = some db) (dest : String) :
+    backup s dest = (backupSt s db dest, .ok) := by
+  unfold backup withDB backupSt
+  simp only [hs]
+  rfl
+
+theorem Step_backup (s : St) (dest : String) : Step s (backup s dest).1 := by
+  intro db hs
+  rw [backup_eq_st hs dest]
+  refine ⟨db, hs, ?_⟩
+  by_cases hne : dest = db.dir
+  · subst hne
+    refine ⟨rfl, fun ht => ?_⟩
+    have hfs : filesOf (backupSt s db db.dir) db
+        = (filesOf s db).foldl (fun acc (x : Nat × FileSt) =>
+              setFile acc x.1 { x.2 with synced := x.2.bytes.size }) (filesOf s db) := by
+      unfold filesOf backupSt
+      simp only []
+      unfold dirOf
+      rw [get_set_self]
+      rfl
+    rw [hfs]
+    obtain ⟨ha, hb⟩ := backup_self_fold (filesOf s db) ht.1 (filesOf s db) (filesOf s db)
+      (fun _ h => h) ht.1 (fun _ => rfl)
+    refine ⟨⟨ha, fun id hid => ?_⟩, fun id f hf => ?_⟩
+    · have := hb id
+      rw [ht.2 id hid] at this
+      simpa using this
+    · have := hb id
+      rw [hf] at this
+      cases hg : getFile ((filesOf s db).foldl (fun acc (x : Nat × FileSt) =>
+          setFile acc x.1 { x.2 with synced := x.2.bytes.size }) (filesOf s db)) id with
+      | none => rw [hg] at this; cases this
+      | some f' =>
+        rw [hg] at this
+        simp only [Option.map_some, Option.some.injEq] at this
+        exact ⟨f', rfl, by rw [this]; exact FExt.refl _⟩
+  · refine Adv.same_dir rfl ?_ rfl
+    unfold backupSt
+    exact get_set_ne _ _ _ _ (fun e => hne e.symm)
+
+/-! ## histories: plain operations, batch operations, `Merge` runs and `Backup`s, interleaved -/
 
 inductive HOp where
   | op : AOp → HOp
   /-- `Merge`; the argument is the order in which Go's map iteration visits the older files -/
   | merge : List Nat → HOp
+  /-- `Backup(dir)` into any directory (another one, the merge directory, even the data directory) -/
+  | backup : String → HOp
 
 def hstep (s : St) : HOp → St × Res
   | .op o => astep s o
   | .merge order => merge s order
+  | .backup dest => backup s dest
 
 def hrun (s : St) : List HOp → St
   | [] => s
@@ -155,6 +233,7 @@ theorem Step_hstep (s : St) (h : HOp) : Step s (hstep s h).1 := by
   cases h with
   | op o => exact Step_astep s o
   | merge order => exact Step_merge s order
+  | backup dest => exact Step_backup s dest
 
 theorem Step_hrun (hs : List HOp) : ∀ s : St, Step s (hrun s hs) := by
   induction hs with
